@@ -107,7 +107,7 @@ class TWorld:
 
     def __init__(self, config=None, coroutine_handlers=False, app_kwargs=None, ws_read_timeout=False,
                  legacy_disconnect=False, clock=None, sched=None, handler_delay=None,
-                 preempt=False):
+                 preempt=False, timer_jitter=0.0):
         import engineio
         self.clock = clock or vclock.reset()
         vclock.patch_engineio_time()
@@ -116,6 +116,7 @@ class TWorld:
         self.sched = sched or vsched.Sched(self.clock)
         vsched.set_sched(self.sched)
         self.sched.trace_on = bool(preempt)
+        self.sched.jitter = float(timer_jitter or 0.0)
 
         class VServer(engineio.Server):
             def async_modes(self):
